@@ -3,3 +3,4 @@ pub mod util;
 pub mod paygen;
 pub mod srvenv;
 pub mod rrdpsrv;
+pub mod rpkigen;
